@@ -1,0 +1,269 @@
+//! Verification seams, compiled only with the cargo feature `verif`.
+//!
+//! Every hook is additive and does nothing unless the *calling thread* has a
+//! handler installed (`install`). A handler is per thread, so many independent
+//! exploration sessions can run in one process; background threads spawned by a
+//! store inherit the handler of the thread that built it (`adopt`).
+//!
+//! The seams are:
+//! * device I/O observation and fault answers (`write_begin`/`wrote`/`fsync_*`),
+//! * a virtual clock (`now`),
+//! * named scheduling points and visible waiting (`point`, `wait_until`, `yield_now`),
+//! * thread adoption and the periodic-flush gate (`adopt`, `tick`),
+//! * free-form notes and flags.
+
+use std::cell::RefCell;
+use std::sync::Arc;
+
+/// Answer of a fault-injecting handler to one device call.
+#[derive(Clone, Copy, Debug, PartialEq, Eq)]
+pub enum IoAnswer {
+    /// Perform the call normally.
+    Proceed,
+    /// Fail without touching the device.
+    FailBefore,
+    /// Perform the call, then report failure.
+    FailAfter,
+    /// (writes only) Persist a prefix of the buffer, then report a short write.
+    Short,
+}
+
+/// What the periodic flush coordinator should do after one sleep.
+#[derive(Clone, Copy, Debug, PartialEq, Eq)]
+pub enum Tick {
+    /// Behave as in production.
+    Run,
+    /// Skip this round.
+    Skip,
+}
+
+#[allow(unused_variables)]
+pub trait Handler: Send + Sync {
+    /// Called before a synchronous device write. `site` names the call site.
+    fn write_begin(&self, site: &'static str, offset: u64, data: &[u8]) -> IoAnswer {
+        IoAnswer::Proceed
+    }
+    /// Called once the bytes `data` (possibly a prefix of the request) were handed
+    /// to the device at `offset`.
+    fn wrote(&self, site: &'static str, offset: u64, data: &[u8]) {}
+    /// Called when a write call returns. `ok` is the result reported to the caller.
+    fn write_end(&self, site: &'static str, ok: bool) {}
+    fn fsync_begin(&self) -> IoAnswer {
+        IoAnswer::Proceed
+    }
+    fn fsync_end(&self, ok: bool) {}
+    /// Virtual wall clock in nanoseconds; `None` means the real clock.
+    fn now(&self) -> Option<u64> {
+        None
+    }
+    /// Named boolean switches (`no_uring`, `force_sync_io`, `fast_poll`).
+    fn flag(&self, name: &'static str) -> bool {
+        false
+    }
+    /// A scheduling point: the thread may be parked here by a controller.
+    fn point(&self, name: &'static str, a: u64, b: u64) {}
+    /// Visible waiting: returns once `ready()` holds and the controller lets the
+    /// thread continue. The call that follows must then complete without blocking.
+    fn wait_until(&self, name: &'static str, ready: &dyn Fn() -> bool) {}
+    /// A voluntary yield inside a retry / back-off loop. Returning `true` means the
+    /// caller may skip its real sleep.
+    fn yield_now(&self, name: &'static str) -> bool {
+        false
+    }
+    /// Non-parking notification.
+    fn note(&self, name: &'static str, a: u64, b: u64) {}
+    /// A background thread of the store starts running under this handler.
+    fn adopted(&self, role: &'static str) {}
+    /// A background thread of the store is about to exit.
+    fn retired(&self, role: &'static str) {}
+    /// Periodic coordinator gate, asked after every sleep.
+    fn tick(&self) -> Tick {
+        Tick::Run
+    }
+    /// The timestamp a call resolved for itself.
+    fn timestamp(&self, timestamp: u64) {}
+}
+
+thread_local! {
+    static HANDLER: RefCell<Option<Arc<dyn Handler>>> = const { RefCell::new(None) };
+}
+
+/// Install (or clear) the handler of the calling thread; returns the previous one.
+pub fn install(handler: Option<Arc<dyn Handler>>) -> Option<Arc<dyn Handler>> {
+    HANDLER.with(|slot| std::mem::replace(&mut *slot.borrow_mut(), handler))
+}
+
+/// The handler of the calling thread.
+#[inline]
+pub fn current() -> Option<Arc<dyn Handler>> {
+    HANDLER
+        .try_with(|slot| slot.borrow().clone())
+        .ok()
+        .flatten()
+}
+
+/// Token captured before `thread::spawn` and passed to `adopt` inside the new thread.
+pub type Token = Option<Arc<dyn Handler>>;
+
+#[inline]
+pub fn token() -> Token {
+    current()
+}
+
+pub fn adopt(token: Token, role: &'static str) {
+    if let Some(handler) = token {
+        install(Some(Arc::clone(&handler)));
+        handler.adopted(role);
+    }
+}
+
+pub fn retire(role: &'static str) {
+    if let Some(handler) = current() {
+        handler.retired(role);
+    }
+}
+
+#[inline]
+pub fn now() -> Option<u64> {
+    current().and_then(|handler| handler.now())
+}
+
+#[inline]
+pub fn flag(name: &'static str) -> bool {
+    current().is_some_and(|handler| handler.flag(name))
+}
+
+#[inline]
+pub fn point(name: &'static str, a: u64, b: u64) {
+    if let Some(handler) = current() {
+        handler.point(name, a, b);
+    }
+}
+
+#[inline]
+pub fn wait_until(name: &'static str, ready: &dyn Fn() -> bool) {
+    if let Some(handler) = current() {
+        handler.wait_until(name, ready);
+    }
+}
+
+#[inline]
+pub fn yield_now(name: &'static str) -> bool {
+    current().is_some_and(|handler| handler.yield_now(name))
+}
+
+#[inline]
+pub fn note(name: &'static str, a: u64, b: u64) {
+    if let Some(handler) = current() {
+        handler.note(name, a, b);
+    }
+}
+
+#[inline]
+pub fn tick() -> Tick {
+    current().map_or(Tick::Run, |handler| handler.tick())
+}
+
+#[inline]
+pub fn timestamp(timestamp: u64) {
+    if let Some(handler) = current() {
+        handler.timestamp(timestamp);
+    }
+}
+
+fn injected(what: &str) -> crate::error::FeoxError {
+    crate::error::FeoxError::IoError(std::io::Error::other(format!("verif: injected {what}")))
+}
+
+/// Consulted by the synchronous write path before the real `pwrite`. `None` means
+/// "carry on normally"; `Some(result)` is the complete outcome of the call.
+#[cfg(unix)]
+pub fn intercept_write(
+    site: &'static str,
+    fd: std::os::unix::io::RawFd,
+    offset: u64,
+    data: &[u8],
+) -> Option<crate::error::Result<()>> {
+    let handler = current()?;
+    match handler.write_begin(site, offset, data) {
+        IoAnswer::Proceed => None,
+        IoAnswer::FailBefore => {
+            handler.write_end(site, false);
+            Some(Err(injected("write failure before the device was touched")))
+        }
+        answer => {
+            let len = if answer == IoAnswer::Short {
+                // Half of the request, rounded down to the 512-byte device sector.
+                (data.len() / 2) & !511
+            } else {
+                data.len()
+            };
+            let mut done = 0;
+            while done < len {
+                let written = unsafe {
+                    libc::pwrite(
+                        fd,
+                        data[done..len].as_ptr() as *const libc::c_void,
+                        len - done,
+                        (offset + done as u64) as libc::off_t,
+                    )
+                };
+                if written <= 0 {
+                    break;
+                }
+                done += written as usize;
+            }
+            handler.wrote(site, offset, &data[..done]);
+            handler.write_end(site, false);
+            Some(Err(injected(if answer == IoAnswer::Short {
+                "short write"
+            } else {
+                "write failure after the bytes reached the device"
+            })))
+        }
+    }
+}
+
+/// Observation of a write that the normal path performed.
+#[inline]
+pub fn wrote(site: &'static str, offset: u64, data: &[u8], ok: bool) {
+    if let Some(handler) = current() {
+        if ok {
+            handler.wrote(site, offset, data);
+        }
+        handler.write_end(site, ok);
+    }
+}
+
+/// Observation of an asynchronously submitted write (io_uring): logged when queued.
+#[inline]
+pub fn queued(site: &'static str, offset: u64, data: &[u8]) {
+    if let Some(handler) = current() {
+        handler.wrote(site, offset, data);
+    }
+}
+
+/// Consulted before `fsync`. `None` = carry on; `Some(Err)` = fail without syncing;
+/// `Some(Ok)` = sync, then fail (the caller performs the sync and reports the error).
+pub fn intercept_fsync() -> Option<crate::error::Result<()>> {
+    let handler = current()?;
+    match handler.fsync_begin() {
+        IoAnswer::Proceed => None,
+        IoAnswer::FailAfter => Some(Ok(())),
+        _ => {
+            handler.fsync_end(false);
+            Some(Err(injected("fsync failure")))
+        }
+    }
+}
+
+#[inline]
+pub fn fsync_end(ok: bool) {
+    if let Some(handler) = current() {
+        handler.fsync_end(ok);
+    }
+}
+
+pub fn injected_fsync_error() -> crate::error::FeoxError {
+    injected("fsync failure after the sync completed")
+}
